@@ -1,11 +1,13 @@
 package main
 
 import (
+	"bytes"
 	"context"
 	"io"
 
 	"cuelabs.dev/go/oci/ociregistry"
 	"cuelabs.dev/go/oci/ociregistry/ocifilter"
+	"verif/harness/memsim"
 )
 
 // The registry a wrapper is given can be any ociregistry.Interface.  The wrappers of C14 are
@@ -15,85 +17,184 @@ import (
 //	""        the *ocimem.Registry itself
 //	"funcs"   a *ociregistry.Funcs whose every member is set and forwards (the documented way to
 //	          implement Interface: logging / metrics / forwarding layers look like this)
-//	"embed"   a struct that embeds the registry as an ociregistry.Interface
-//	"select"  ocifilter.Select(r, accept everything): a pointer to a struct that embeds a nil *Funcs
+//	"embed"   a struct that embeds such a *Funcs as an ociregistry.Interface
+//	"select"  ocifilter.Select(that *Funcs, accept everything): a pointer to a struct that embeds a nil *Funcs
+//
+// The forwarding *Funcs is a spy (below): it records the calls that reach the registry.
 var wrapKinds = []string{"", "funcs", "embed", "select"}
 
 var wrapCoq = map[string]string{"": "WDirect", "funcs": "WFuncs", "embed": "WEmbed", "select": "WSelect"}
 
-func wrapAs(kind string, r ociregistry.Interface) ociregistry.Interface {
+// spy is the forwarding value between a wrapper and the registry.  It forwards every call
+// unchanged and keeps a list of the calls it served (coq/Obs/C14.v: [c_trace]).  It can also act
+// for a rival client of the same registry: right after it has served its n-th call it performs
+// the operations scheduled for n directly on the registry ([rival_step]) - somebody else's push
+// landing between two calls of the wrapper.
+type spy struct {
+	under  ociregistry.Interface
+	calls  []memsim.Op         // calls served since the last take
+	count  int                 // calls served so far
+	rivals map[int][]memsim.Op // what the rival does right after call n
+	exR    *memsim.Exec        // the rival's executor: directly on the registry
+	fired  []rivalStep
+	// the upload ids the wrapper's user sees are canonical (memsim); the spy sees the real ones
+	canonID func(real string) string
+}
+
+type rivalStep struct {
+	After int           `json:"after"`
+	Op    memsim.Op     `json:"op"`
+	Res   memsim.Result `json:"res"`
+}
+
+func (s *spy) served(o memsim.Op) {
+	s.calls = append(s.calls, o)
+	n := s.count
+	s.count++
+	for _, ro := range s.rivals[n] {
+		res := s.exR.Run(ro)
+		if len(res.Data) > 64 {
+			res.Data = res.Data[:64]
+		}
+		s.fired = append(s.fired, rivalStep{n, ro, res})
+	}
+}
+
+func (s *spy) take() []memsim.Op {
+	c := s.calls
+	s.calls = nil
+	return c
+}
+
+func newSpy(r ociregistry.Interface) *spy {
+	return &spy{under: r, rivals: map[int][]memsim.Op{}, exR: memsim.NewExec(r, true)}
+}
+
+func wrapAs(kind string, r ociregistry.Interface) (ociregistry.Interface, *spy) {
+	if kind == "" {
+		return r, nil
+	}
+	sp := newSpy(r)
+	f := sp.funcs()
 	switch kind {
-	case "":
-		return r
 	case "funcs":
-		return forwardingFuncs(r)
+		return f, sp
 	case "embed":
-		return struct{ ociregistry.Interface }{r}
+		return struct{ ociregistry.Interface }{f}, sp
 	case "select":
-		return ocifilter.Select(r, func(string) bool { return true })
+		return ocifilter.Select(f, func(string) bool { return true }), sp
 	}
 	panic("unknown wrapping " + kind)
 }
 
-func forwardingFuncs(r ociregistry.Interface) *ociregistry.Funcs {
+func opDesc(d ociregistry.Descriptor) *memsim.Desc {
+	return &memsim.Desc{Media: d.MediaType, Digest: string(d.Digest), Size: d.Size}
+}
+
+func (s *spy) funcs() *ociregistry.Funcs {
+	r := s.under
 	return &ociregistry.Funcs{
 		// NewError is only consulted for nil members; there are none
 		NewError: func(ctx context.Context, methodName, repo string) error {
-			panic("forwardingFuncs: NewError called for " + methodName)
+			panic("forwarding Funcs: NewError called for " + methodName)
 		},
 		GetBlob_: func(ctx context.Context, repo string, digest ociregistry.Digest) (ociregistry.BlobReader, error) {
-			return r.GetBlob(ctx, repo, digest)
+			rd, err := r.GetBlob(ctx, repo, digest)
+			s.served(memsim.Op{Kind: "GetBlob", Repo: repo, Digest: string(digest)})
+			return rd, err
 		},
 		GetBlobRange_: func(ctx context.Context, repo string, digest ociregistry.Digest, o0, o1 int64) (ociregistry.BlobReader, error) {
-			return r.GetBlobRange(ctx, repo, digest, o0, o1)
+			rd, err := r.GetBlobRange(ctx, repo, digest, o0, o1)
+			s.served(memsim.Op{Kind: "GetBlobRange", Repo: repo, Digest: string(digest), O0: o0, O1: o1})
+			return rd, err
 		},
 		GetManifest_: func(ctx context.Context, repo string, digest ociregistry.Digest) (ociregistry.BlobReader, error) {
-			return r.GetManifest(ctx, repo, digest)
+			rd, err := r.GetManifest(ctx, repo, digest)
+			s.served(memsim.Op{Kind: "GetManifest", Repo: repo, Digest: string(digest)})
+			return rd, err
 		},
 		GetTag_: func(ctx context.Context, repo string, tagName string) (ociregistry.BlobReader, error) {
-			return r.GetTag(ctx, repo, tagName)
+			rd, err := r.GetTag(ctx, repo, tagName)
+			s.served(memsim.Op{Kind: "GetTag", Repo: repo, Tag: tagName})
+			return rd, err
 		},
 		ResolveBlob_: func(ctx context.Context, repo string, digest ociregistry.Digest) (ociregistry.Descriptor, error) {
-			return r.ResolveBlob(ctx, repo, digest)
+			d, err := r.ResolveBlob(ctx, repo, digest)
+			s.served(memsim.Op{Kind: "ResolveBlob", Repo: repo, Digest: string(digest)})
+			return d, err
 		},
 		ResolveManifest_: func(ctx context.Context, repo string, digest ociregistry.Digest) (ociregistry.Descriptor, error) {
-			return r.ResolveManifest(ctx, repo, digest)
+			d, err := r.ResolveManifest(ctx, repo, digest)
+			s.served(memsim.Op{Kind: "ResolveManifest", Repo: repo, Digest: string(digest)})
+			return d, err
 		},
 		ResolveTag_: func(ctx context.Context, repo string, tagName string) (ociregistry.Descriptor, error) {
-			return r.ResolveTag(ctx, repo, tagName)
+			d, err := r.ResolveTag(ctx, repo, tagName)
+			s.served(memsim.Op{Kind: "ResolveTag", Repo: repo, Tag: tagName})
+			return d, err
 		},
 		PushBlob_: func(ctx context.Context, repo string, desc ociregistry.Descriptor, rd io.Reader) (ociregistry.Descriptor, error) {
-			return r.PushBlob(ctx, repo, desc, rd)
+			data, rerr := io.ReadAll(rd)
+			if rerr != nil {
+				panic("forwarding Funcs: reading the blob handed to PushBlob: " + rerr.Error())
+			}
+			d, err := r.PushBlob(ctx, repo, desc, bytes.NewReader(append([]byte{}, data...)))
+			s.served(memsim.Op{Kind: "PushBlob", Repo: repo, Desc: opDesc(desc), Content: data})
+			return d, err
 		},
 		PushBlobChunked_: func(ctx context.Context, repo string, chunkSize int) (ociregistry.BlobWriter, error) {
-			return r.PushBlobChunked(ctx, repo, chunkSize)
+			w, err := r.PushBlobChunked(ctx, repo, chunkSize)
+			s.served(memsim.Op{Kind: "PushBlobChunked", Repo: repo, Hint: int64(chunkSize)})
+			return w, err
 		},
 		PushBlobChunkedResume_: func(ctx context.Context, repo, id string, offset int64, chunkSize int) (ociregistry.BlobWriter, error) {
-			return r.PushBlobChunkedResume(ctx, repo, id, offset, chunkSize)
+			w, err := r.PushBlobChunkedResume(ctx, repo, id, offset, chunkSize)
+			if s.canonID != nil {
+				id = s.canonID(id)
+			}
+			s.served(memsim.Op{Kind: "PushBlobChunkedResume", Repo: repo, ID: id, Off: offset, Hint: int64(chunkSize)})
+			return w, err
 		},
 		MountBlob_: func(ctx context.Context, fromRepo, toRepo string, digest ociregistry.Digest) (ociregistry.Descriptor, error) {
-			return r.MountBlob(ctx, fromRepo, toRepo, digest)
+			d, err := r.MountBlob(ctx, fromRepo, toRepo, digest)
+			s.served(memsim.Op{Kind: "MountBlob", From: fromRepo, Repo: toRepo, Digest: string(digest)})
+			return d, err
 		},
 		PushManifest_: func(ctx context.Context, repo string, tag string, contents []byte, mediaType string) (ociregistry.Descriptor, error) {
-			return r.PushManifest(ctx, repo, tag, contents, mediaType)
+			seen := append([]byte{}, contents...)
+			d, err := r.PushManifest(ctx, repo, tag, contents, mediaType)
+			s.served(memsim.Op{Kind: "PushManifest", Repo: repo, Tag: tag, Content: seen, Media: mediaType})
+			return d, err
 		},
 		DeleteBlob_: func(ctx context.Context, repo string, digest ociregistry.Digest) error {
-			return r.DeleteBlob(ctx, repo, digest)
+			err := r.DeleteBlob(ctx, repo, digest)
+			s.served(memsim.Op{Kind: "DeleteBlob", Repo: repo, Digest: string(digest)})
+			return err
 		},
 		DeleteManifest_: func(ctx context.Context, repo string, digest ociregistry.Digest) error {
-			return r.DeleteManifest(ctx, repo, digest)
+			err := r.DeleteManifest(ctx, repo, digest)
+			s.served(memsim.Op{Kind: "DeleteManifest", Repo: repo, Digest: string(digest)})
+			return err
 		},
 		DeleteTag_: func(ctx context.Context, repo string, name string) error {
-			return r.DeleteTag(ctx, repo, name)
+			err := r.DeleteTag(ctx, repo, name)
+			s.served(memsim.Op{Kind: "DeleteTag", Repo: repo, Tag: name})
+			return err
 		},
 		Repositories_: func(ctx context.Context, startAfter string) ociregistry.Seq[string] {
-			return r.Repositories(ctx, startAfter)
+			seq := r.Repositories(ctx, startAfter)
+			s.served(memsim.Op{Kind: "Repositories", Start: startAfter})
+			return seq
 		},
 		Tags_: func(ctx context.Context, repo string, startAfter string) ociregistry.Seq[string] {
-			return r.Tags(ctx, repo, startAfter)
+			seq := r.Tags(ctx, repo, startAfter)
+			s.served(memsim.Op{Kind: "Tags", Repo: repo, Start: startAfter})
+			return seq
 		},
 		Referrers_: func(ctx context.Context, repo string, digest ociregistry.Digest, artifactType string) ociregistry.Seq[ociregistry.Descriptor] {
-			return r.Referrers(ctx, repo, digest, artifactType)
+			seq := r.Referrers(ctx, repo, digest, artifactType)
+			s.served(memsim.Op{Kind: "Referrers", Repo: repo, Digest: string(digest), Art: artifactType})
+			return seq
 		},
 	}
 }
